@@ -23,13 +23,21 @@ def cssCleanRes : List String :=
     | some re => Re.anchoredBoth re && Re.within (some inertQ) re
     | none => false
 
+/-- the regexps, anchored or not, that consume nothing but characters of that alphabet: the ones used
+    with `FindString` and `ReplaceAll` are among them -/
+def cssInertRes : List String :=
+  (Gen.cssRegexes.map (·.1)).filter fun r =>
+    match cssCtx.regex? r with
+    | some re => Re.within (some inertQ) re
+    | none => false
+
 /-- package-level values: `colorValues` is a list of clean strings -/
 def cssGlobals : AEnv := fun n => if n == "colorValues" then .cleanL else .other
 
 def cssStep (fns : List String) : List String :=
   fns.filter fun f =>
     match cssCtx.func? f with
-    | some fn => acheck { closedFns := fns, closedRes := cssCleanRes } 64 false false false false
+    | some fn => acheck { closedFns := fns, closedRes := cssCleanRes, inertRes := cssInertRes } 64 false false false false
         (cssGlobals.set fn.param (.covS .param)) [] fn.body
     | none => false
 
@@ -41,7 +49,7 @@ def cssIter : Nat → List String → List String
     the analysis when calls to the others in the set count as clean -/
 def cssClosed : List String := cssIter 8 (Gen.cssFuncs.map (·.name))
 
-def cssA : ACtx := { closedFns := cssClosed, closedRes := cssCleanRes }
+def cssA : ACtx := { closedFns := cssClosed, closedRes := cssCleanRes, inertRes := cssInertRes }
 
 set_option maxRecDepth 1000000 in
 /-- every accepted handler is defined and its body passes the analysis (run by the kernel on the
@@ -52,21 +60,44 @@ set_option maxRecDepth 1000000 in
 /-- the handler functions the analysis does not accept, by name -/
 theorem css_unanalysed :
     (Gen.cssFuncs.map (·.name)).filter (fun f => !cssClosed.contains f) =
-      ["FilterHandler", "TransformHandler"] := by decide
+      [] := by decide
 
 /-- the hostile bytes are outside the alphabet of the clean regexps -/
 theorem inertQ_excludes : ∀ c ∈ [92, 60, 62, 64, 59, 123, 125], Re.inRanges c inertQ = false := by decide
 
-theorem css_soundCtx : SoundCtx cssA cssCtx := by
-  refine ⟨rfl, ?_⟩
-  intro r hr re hre s hm
-  have hr' : r ∈ cssCleanRes := hr
-  unfold cssCleanRes at hr'
-  rw [List.mem_filter] at hr'
-  have hcond := hr'.2
+theorem inertQ_inert : InertAlphabet inertQ := by
+  intro b hb
+  rcases hostile_cases hb with h | h | h | h | h | h | h <;> subst h
+  · exact inertQ_excludes 92 (by simp)
+  · exact inertQ_excludes 60 (by simp)
+  · exact inertQ_excludes 62 (by simp)
+  · exact inertQ_excludes 64 (by simp)
+  · exact inertQ_excludes 59 (by simp)
+  · exact inertQ_excludes 123 (by simp)
+  · exact inertQ_excludes 125 (by simp)
+
+theorem cssInertRes_within (r : String) (hr : r ∈ cssInertRes) (re : Re) (hre : cssCtx.regex? r = some re) :
+    Re.within (some inertQ) re = true := by
+  unfold cssInertRes at hr
+  rw [List.mem_filter] at hr
+  have hcond := hr.2
   rw [hre] at hcond
-  simp only [Bool.and_eq_true] at hcond
-  exact clean_of_match re inertQ (closedCss_of re inertQ hcond.1 hcond.2) inertQ_excludes s hm
+  exact hcond
+
+theorem css_soundCtx : SoundCtx cssA cssCtx := by
+  refine ⟨rfl, ?_, ?_, ?_⟩
+  · intro r hr re hre s hm
+    have hr' : r ∈ cssCleanRes := hr
+    unfold cssCleanRes at hr'
+    rw [List.mem_filter] at hr'
+    have hcond := hr'.2
+    rw [hre] at hcond
+    simp only [Bool.and_eq_true] at hcond
+    exact clean_of_match re inertQ (closedCss_of re inertQ hcond.1 hcond.2) inertQ_excludes s hm
+  · intro r hr re hre s hcl
+    exact clean_of_deleteAll inertQ inertQ_inert re (cssInertRes_within r hr re hre) s hcl
+  · intro r hr re hre s
+    exact clean_findString inertQ inertQ_inert re (cssInertRes_within r hr re hre) s
 
 set_option maxRecDepth 1000000 in
 theorem colorValues_clean : (Gen.colorValues.all cleanB) = true := by decide
@@ -96,7 +127,7 @@ theorem C18_handler_functions_clean (f : String) (hf : f ∈ cssA.closedFns) (k 
   exact hall f hf k (Nat.le_refl _) v h
 
 /-- **C18, the table**: for every property of the default table whose handler is accepted — all but
-    the two of `css_table_unanalysed` (filter, transform) — and every value, `css.GetDefaultHandler(prop)(value)`
+    of them (`css_table_unanalysed` pins the exceptions: none) — and every value, `css.GetDefaultHandler(prop)(value)`
     is true only if the value holds no backslash (so no CSS escape), no `<` or `>`, no `@`, and no `;`, `{`
     or `}` (so it cannot end the declaration or the block it is written into) -/
 theorem C18_handlers_clean (prop v : Bytes) (fn : String)
@@ -118,7 +149,7 @@ set_option maxRecDepth 1000000 in
 /-- the properties of the table whose handler the analysis does not accept -/
 theorem css_table_unanalysed :
     (Gen.defaultStyleHandlers.filter fun e => !cssA.closedFns.contains e.2).map (·.1) =
-      [b!"filter", b!"transform"] := by decide
+      [] := by decide
 
 set_option maxRecDepth 1000000 in
 /-- non-vacuity: `color` is in the table, its handler is accepted, and it accepts something -/
@@ -137,7 +168,7 @@ def cssUnanalysedProps : List Bytes :=
 
 /-- **the matcher `AllowStyles(prop)` installs when it is given none** — the default handler of
     `prop`, or the reject-everything handler for a property outside the table — accepts clean values
-    only, for every property but the two of `css_table_unanalysed` (filter, transform) -/
+    only, for every property outside `cssUnanalysedProps` (which is empty: `C18_every_default_handler_clean`) -/
 theorem default_matcher_cleanOnly (prop : Bytes) (hprop : prop ∉ cssUnanalysedProps) :
     CleanOnly (mkStylePolicy defaultHandler {} prop) := by
   intro v hv
@@ -161,6 +192,23 @@ theorem default_matcher_cleanOnly (prop : Bytes) (hprop : prop ∉ cssUnanalysed
         exact List.mem_map.mpr ⟨(prop', fn), List.mem_filter.mpr ⟨hmem, by show (!cssA.closedFns.contains fn) = true; rw [hc]; rfl⟩, rfl⟩
       · exact List.contains_iff_mem.mp hc
     exact C18_handlers_clean prop' v fn hfind hfn hv
+
+theorem cssUnanalysedProps_nil : cssUnanalysedProps = [] := css_table_unanalysed
+
+/-- **C18, every default handler, every value**: `css.GetDefaultHandler(prop)(value)` — for each of the
+    213 properties of the table and for every name outside it — is true only if the value holds no
+    backslash (so no CSS escape), no `<` or `>`, no `@`, and no `;`, `{` or `}` -/
+theorem C18_every_default_handler_clean (prop v : Bytes) (h : defaultHandler prop v = true) : Clean v := by
+  have := default_matcher_cleanOnly prop (by rw [cssUnanalysedProps_nil]; simp) v
+  apply this
+  show okS (mkStylePolicy defaultHandler {} prop) v = true
+  have hsp : mkStylePolicy defaultHandler {} prop = { handler := some (defaultHandler prop) } := rfl
+  rw [hsp]
+  simpa [okS] using h
+
+/-- the matcher `AllowStyles(prop)` installs when it is given none accepts clean values only — every property -/
+theorem default_matcher_cleanOnly_all (prop : Bytes) : CleanOnly (mkStylePolicy defaultHandler {} prop) :=
+  default_matcher_cleanOnly prop (by rw [cssUnanalysedProps_nil]; simp)
 
 /-- **C10 + C18 through `sanitizeStyles`**: if every style rule that applies to element `el` — its own
     or the merged pattern rules, and the global ones — accepts clean values only (as the default
